@@ -157,7 +157,7 @@ U_MC ==
     !.decl = {<<"V", "UNION">>, <<"X", "INPUT_OBJECT">>, <<"Y", "INPUT_OBJECT">>},
     !.members = {<<"V", "O">>, <<"V", "I">>},
     !.inputs = NoDef(({"X", "Y"} \X {"x"} \X {NNn("X"), NNn("Y"), Named("Y")}) \cup ({"X"} \X {"y"} \X {NNn("Y")}))]
-  @@ [init |-> {ChainBase}, max |-> 5]
+  @@ [init |-> {ChainBase}, max |-> 4]
 Univ == [n \in {"Roots", "Refs", "RefsBig", "TypeName", "ImplObject6", "ImplInterface6", "ImplObject3", "ImplInterface3", "Args",
                 "Chain", "Cycle", "CycleBig", "MC"} |->
            CASE n = "Roots" -> U_Roots [] n = "Refs" -> U_Refs [] n = "RefsBig" -> U_RefsBig [] n = "TypeName" -> U_TypeName
@@ -216,7 +216,7 @@ Emit == PrintT(<<"REPLAY", u, ToJson(ts)>>)
 
 \* ---- mode M: the reference operators checked against each other on every reachable type system
 Names == (DOMAIN ts.types) \cup {"Int"}
-Pool6 == UNION {Wrap6(n) : n \in Names}
+Pool6 == UNION {Wrap6(n) : n \in Names \cap {"Int", "I", "J", "O", "V"}}
 Pool2 == UNION {Wrap2(n) : n \in Names}
 \* the two-switch family contains the specification's algorithm and today's code
 InvFamily == LET T == Out(ts) IN
